@@ -31,6 +31,8 @@ struct SimRandom : bxdecay0::i_random
   i64 cancel_at = -1;       // throw SimCancel at this draw index (relative to op_start)
   struct Steer { i64 at; int kind; };
   std::vector<Steer> steers; // replace draw `at` (relative to op_start) by an extreme-tail value
+  i64 squeeze_n = 0;         // the first squeeze_n draws of the operation are mapped affinely into [squeeze_lo, squeeze_hi]
+  double squeeze_lo = 0.0, squeeze_hi = 1.0; // (a legal deviate sequence, just not an i.i.d.-looking one: long runs on one side of a branching threshold)
   int yield_every = 0;       // thread mode: every k-th draw is a schedule point
   // observations
   u64 steered_fired = 0;
@@ -41,7 +43,7 @@ struct SimRandom : bxdecay0::i_random
 
   void begin_op(u64 budget_ = 2000000)
   {
-    op_start = n; budget = budget_; cancel_at = -1; steers.clear();
+    op_start = n; budget = budget_; cancel_at = -1; steers.clear(); squeeze_n = 0; squeeze_lo = 0.0; squeeze_hi = 1.0;
     cancelled = false; over_budget = false; steered_fired = 0;
   }
   u64 op_draws() const { return n - op_start; }
@@ -58,7 +60,9 @@ struct SimRandom : bxdecay0::i_random
     for (const Steer & s : steers) {
       if (s.at == rel) { steered_fired++; return s.kind == 0 ? 1e-12 : 1.0 - 1e-12; }
     }
-    return unit_from(hmix(key, i));
+    double u = unit_from(hmix(key, i));
+    if (rel < squeeze_n) u = squeeze_lo + (squeeze_hi - squeeze_lo) * u;
+    return u;
   }
 };
 
